@@ -1514,6 +1514,25 @@ class _Infeasible(Exception):
     pass
 
 
+def fold_actions(actions, fold):
+    """fold: [(helper name, ((action, args), ...))] - the bodies of reviewed straight-line helpers that no longer exist as
+    functions; where a path performs exactly such a body it is spelled as the call of the helper again, so that writing a
+    helper out at its call sites (and deleting it) leaves the tables in the reviewed vocabulary"""
+    if not fold:
+        return actions
+    acts = [(a, tuple(showv(x) if not isinstance(x, str) else x for x in args)) for a, args in actions]
+    out = list(actions)
+    for name, body in sorted(fold, key=lambda f: -len(f[1])):
+        n = len(body)
+        i = 0
+        while n and i + n <= len(out):
+            if tuple(acts[i:i + n]) == tuple(body):
+                out[i:i + n] = [(name, ())]
+                acts[i:i + n] = [(name, ())]
+            i += 1
+    return out
+
+
 def explore(cfg, runner, max_paths=20000):
     """enumerate all choice scripts.  runner(run) executes the construct; returns list of path dicts"""
     out = []
@@ -1533,7 +1552,7 @@ def explore(cfg, runner, max_paths=20000):
             continue
         except _Infeasible:
             continue
-        out.append({"choices": run.choices, "actions": run.actions, "outcome": outcome, "fields": run.fields})
+        out.append({"choices": run.choices, "actions": fold_actions(run.actions, getattr(cfg, "fold", ())), "outcome": outcome, "fields": run.fields})
     return out
 
 
